@@ -1,4 +1,4 @@
-CONSTANTS B = 4  Bufs = {99}  Paths = {"B"}  WithTrunc = TRUE  WithCorrupt = FALSE  FixSeek = TRUE  FixTrunc = FALSE
+CONSTANTS B = 4  Bufs = {99}  Paths = {"B"}  WithTrunc = TRUE  WithCorrupt = FALSE  FixSeek = TRUE  FixData = TRUE  FixHdr = FALSE
 CONSTANT Shapes <- ShapeCexTree
 INIT Init
 NEXT Next
